@@ -7,10 +7,8 @@ pub mod stubs;
 #[macro_use]
 pub mod util;
 #[cfg(kani)]
-mod c23;
+mod c17;
 #[cfg(kani)]
-mod c24;
+mod c18;
 #[cfg(kani)]
-mod c25;
-#[cfg(kani)]
-mod c34;
+mod c19;
